@@ -327,8 +327,14 @@ int cmdRun(int argc, char** argv) {
 							if (dst->GetVertsForShape(clone, verts) && !verts.empty()) {
 								for (auto& p : verts) p.x += 1.0f + std::fabs(p.x) * 0.125f; // (more than a half-float step)
 								dst->SetVertsForShape(clone, verts);
-								JV sa = jparse(projectShape(src, byName(src, shapeName), gid));
-								srcSame = toJson(sa["pcid"]) == toJson(a["pcid"]);
+								// ... and through the shape's own interface: the clone gives up its normals; the destination itself is saved
+								clone->SetNormals(false);
+								saveToString(*dst, true, true);
+								clone = byName(*dst, cloneName);
+								NiShape* srcNow = byName(src, shapeName);
+								if (!clone || !srcNow) return;
+								JV sa = jparse(projectShape(src, srcNow, gid));
+								srcSame = toJson(sa["pcid"]) == toJson(a["pcid"]) && toJson(sa["lens"]) == toJson(a["lens"]) && toJson(sa["acid"]) == toJson(a["acid"]);
 								if (dst != &src) srcAfterEdit = modelId(src, ids);
 								NifFile copy3(*dst), re3;
 								if (ok && loadFromString(re3, saveToString(copy3, true, true)) == 0 && byName(re3, cloneName)) {
